@@ -44,6 +44,13 @@ def index_of_value(x: V) -> Optional[str]:
     if isinstance(x, Sym) and x.origin and x.origin[0] == "elem" and is_cur_value(x.origin[1]) and x.origin[2] is not None:
         idx = x.origin[2]
         return idx.key() if isinstance(idx, V) else None
+    # element of a slice value[lo:hi]: its position in `value` is idx + lo
+    if isinstance(x, Sym) and x.origin and x.origin[0] == "elem" and isinstance(x.origin[1], Term) and x.origin[1].op == "slice" \
+            and is_cur_value(x.origin[1].args[0]) and isinstance(x.origin[2], V):
+        lo = x.origin[1].args[1]
+        if isinstance(lo, Const) and lo.value in (None, 0):
+            return x.origin[2].key()
+        return f"bin(+, {x.origin[2].key()}, {lo.key()})"
     if isinstance(x, Sym) and x.origin and x.origin[0] == "val" and is_cur_value(x.origin[1]):
         return x.origin[2].key()
     return None
@@ -104,11 +111,11 @@ def check(run: Run, prog: Program, model: Model, tier: str) -> None:
         else:
             run.undecided(rule, construct, site, detail)
     run.analysed.update({"configs": nconf, "paths": npaths})
-    run.floor("PATH-ARG", 23)
-    run.floor("VALUE-ARG", 23)
+    run.floor("PATH-ARG", 15)
+    run.floor("VALUE-ARG", 15)
     run.floor("DESCENT-PAIR", 6)
     run.floor("PATH-OWNERSHIP", 4)
-    run.floor("FACT-AGREE", 20)
+    run.floor("FACT-AGREE", 14)
 
     _check_formatter(run, prog, errs)
 
@@ -355,7 +362,7 @@ def _check_formatter(run: Run, prog: Program, errs: Dict[str, ClassInfo]) -> Non
                              "formatting this error raises AttributeError")
             else:
                 run.holds("FORMAT-ATTRS", construct, m.loc, f"reads {sorted(read)} all set by {ann}.__init__", nontrivial=False)
-    run.floor("FORMAT-PATH", 16)
+    run.floor("FORMAT-PATH", 12)
     # each error class's format() calls the formatter method annotated with that class
     for name, ci in errs.items():
         fmt = ci.methods.get("format")
@@ -375,7 +382,7 @@ def _check_formatter(run: Run, prog: Program, errs: Dict[str, ClassInfo]) -> Non
             run.violated("FORMAT-DISPATCH", construct, fmt.loc,
                          f"calls formatter.{called[0]} but the method for {name} is {want.name}",
                          "the rendered message states a different fact than the error")
-    run.floor("FORMAT-DISPATCH", 16)
+    run.floor("FORMAT-DISPATCH", 12)
 
 
 V_ = "d42/validation/_validator.py"
